@@ -89,7 +89,7 @@ def main():
             print("existing tests FAIL with the change:", (o1 + o2)[-1500:])
         for c in checks:
             t0 = time.time()
-            rc, out = sh(f"{ROOT}/tools/run_against.sh {wt} {c} {a.tier}", cwd=ROOT, timeout=7200)
+            rc, out = sh(f"{ROOT}/tools/run_against.sh {wt} {c} {a.tier} 2>&1", cwd=ROOT, timeout=7200)
             sigs = []
             lines = out.splitlines()
             for i, ln in enumerate(lines):
